@@ -104,7 +104,7 @@ pub fn threads() -> usize {
         })
 }
 
-const HANG_SECS: u64 = 30;
+const HANG_SECS: u64 = 60;
 
 /// chunk journal of the running process (`LQV_CRASHFILE`), read by the parent if this process dies
 static CRASHLOG: std::sync::OnceLock<Option<Mutex<std::fs::File>>> = std::sync::OnceLock::new();
